@@ -583,7 +583,11 @@ func (r *Resolver) groupLookup(ctx context.Context, rs *resolveState, req *dns.M
 	if req.CheckingDisabled {
 		cd = '1'
 	}
-	target := strconv.FormatUint(cache.Key(q), 10) + "|" + servers.Zone +
+	// The question itself, not a hash of it: two different questions whose
+	// 64-bit hashes collide (such pairs can be computed) would share one
+	// lookup, and the follower would be handed the reply to the other's
+	// question under its own name.
+	target := strings.ToLower(q.Name) + "|" + strconv.Itoa(int(q.Qtype)) + "|" + strconv.Itoa(int(q.Qclass)) + "|" + servers.Zone +
 		"|" + string(cd) + "|" + strconv.FormatUint(servers.Fingerprint(), 10)
 	// And the client subnet the query carries upstream: an authority may
 	// tailor its answer to it, so two callers that differ in it ask
